@@ -2098,11 +2098,17 @@ func generateSessionCookie(sc *conf_v1.SessionCookie) *version2.SessionCookie {
 		return nil
 	}
 
+	// a time may contain white space ("1h 30m"): written unquoted it has to be normalised like every other time
+	expires := sc.Expires
+	if expires != "max" {
+		expires = generateTime(expires)
+	}
+
 	return &version2.SessionCookie{
 		Enable:   true,
 		Name:     sc.Name,
 		Path:     sc.Path,
-		Expires:  sc.Expires,
+		Expires:  expires,
 		Domain:   sc.Domain,
 		HTTPOnly: sc.HTTPOnly,
 		Secure:   sc.Secure,
